@@ -76,7 +76,15 @@ class Design:
         return c
 
 
-def render_stil(design, markers, pi_order, po_order, patterns, name_style='plain', loc=False, callnames=0):
+LAYOUTS = ['plain', 'wrapped', 'chain_fields_rev', 'si_first', 'separate_unload', 'tabs']
+
+
+def render_stil(design, markers, pi_order, po_order, patterns, name_style='plain', loc=False, callnames=0, layout='plain'):
+    """layout: textual arrangement, all legal and equivalent - wrapped: data strings continue on the next line after every second
+    character | chain_fields_rev: ScanCells first, ScanIn/ScanOut/ScanLength after it | si_first: scan-in data before scan-out data
+    inside load_unload | separate_unload: the unload of a pattern is a load_unload call of its own, followed by the call that loads the
+    next pattern | tabs: tabs instead of blanks, a comment line after every line"""
+    wrap = (lambda d: '\n'.join(d[i:i + 2] for i in range(0, len(d), 2))) if layout == 'wrapped' else (lambda d: d)
     """markers: per chain a list of booleans of length len(chain)+1: marker before cell k (k=len: after the last cell)."""
     out = ['STIL 1.0 { Design 2005; }', 'Header {', '   Title "generated";', '   History { Ann {* nothing {nested} *} }', '}']
     out.append('Signals {')
@@ -95,12 +103,9 @@ def render_stil(design, markers, pi_order, po_order, patterns, name_style='plain
             cells.append({'plain': f'"{n}"', 'dotted': f'"top.{n}.SI"', 'hier': f'"top.u1.{n}"'}[name_style])
         if markers[ci][len(ch)]: cells.append('!')
         out.append(f'   ScanChain "c{ci}" {{')
-        out.append(f'      ScanLength {len(ch)};')
-        out.append(f'      ScanIn "si{ci}";')
-        out.append(f'      ScanOut "so{ci}";')
-        out.append('      ScanInversion 0;')
-        out.append('      ScanCells ' + ' '.join(cells) + ' ;')
-        out.append('      ScanMasterClock "clk" ;')
+        fields = [f'      ScanLength {len(ch)};', f'      ScanIn "si{ci}";', f'      ScanOut "so{ci}";', '      ScanInversion 0;',
+                  '      ScanCells ' + ' '.join(cells) + ' ;', '      ScanMasterClock "clk" ;']
+        out += [fields[4], fields[5], fields[2], fields[1], fields[0], fields[3]] if layout == 'chain_fields_rev' else fields
         out.append('   }')
     out.append('}')
     out.append('PatternBurst "_burst_" { PatList { "_pattern_" { } } }')
@@ -113,23 +118,29 @@ def render_stil(design, markers, pi_order, po_order, patterns, name_style='plain
     out.append('   Ann {* chain_test *}')
     prev_unload = None
     for i, p in enumerate(patterns):
+        so_lines = [f'      "so{ci}"={wrap(prev_unload[ci])};' for ci in range(len(design.chains))] if prev_unload is not None else []
+        si_lines = [f'      "si{ci}"={wrap(p["load"][ci])}; ' for ci in range(len(design.chains))]
+        if layout == 'separate_unload' and so_lines:
+            out += [f'   "pattern {i - 1} unload": Call "load_unload" {{'] + so_lines + ['   }']
+            so_lines = []
         out.append(f'   "pattern {i}": Call "load_unload" {{')
-        if prev_unload is not None:
-            for ci in range(len(design.chains)): out.append(f'      "so{ci}"={prev_unload[ci]};')
-        for ci in range(len(design.chains)): out.append(f'      "si{ci}"={p["load"][ci]}; ' + ('}' if ci == len(design.chains) - 1 else ''))
+        out += (si_lines + so_lines) if layout == 'si_first' else (so_lines + si_lines)
+        out.append('   }')
         if loc or p.get('launch_pi') is not None:
             ln, cn = [('allclock_launch', 'allclock_capture'), ('multiclock_launch', 'allclock_launch_capture'), ('x_launch', 'y_launch_z_capture')][callnames % 3]
-            out.append(f'   Call "{ln}" {{\n      "_pi"={p["launch_pi"]}; }}')
-            out.append(f'   Call "{cn}" {{\n      "_pi"={p["capture_pi"]}; "_po"={p["capture_po"]}; }}')
+            out.append(f'   Call "{ln}" {{\n      "_pi"={wrap(p["launch_pi"])}; }}')
+            out.append(f'   Call "{cn}" {{\n      "_pi"={wrap(p["capture_pi"])}; "_po"={wrap(p["capture_po"])}; }}')
         else:
             cn = ['multiclock_capture', 'allclock_capture', 'allclock_launch_capture', 'one_launch_two_capture'][callnames % 4]
-            out.append(f'   Call "{cn}" {{\n      "_pi"={p["capture_pi"]}; "_po"={p["capture_po"]}; }}')
+            out.append(f'   Call "{cn}" {{\n      "_pi"={wrap(p["capture_pi"])}; "_po"={wrap(p["capture_po"])}; }}')
         prev_unload = p['unload']
     out.append(f'   "end {len(patterns) - 1} unload": Call "load_unload" {{')
-    for ci in range(len(design.chains)): out.append(f'      "so{ci}"={prev_unload[ci]};' + (' }' if ci == len(design.chains) - 1 else ''))
+    for ci in range(len(design.chains)): out.append(f'      "so{ci}"={wrap(prev_unload[ci])};' + (' }' if ci == len(design.chains) - 1 else ''))
     out.append('}')
     out.append('')
     out.append('// Patterns reference 3 V statements')
+    if layout == 'tabs':
+        return '\n// comment ; here\n'.join(x.replace('   ', '\t') for x in out) + '\n'
     return '\n'.join(out) + '\n'
 
 
@@ -166,7 +177,7 @@ def stil_case(res, case):
     res.evals += 1
     c = d.build()
     markers, pi_order, po_order, patterns = case['markers'], case['pi_order'], case['po_order'], case['patterns']
-    text = render_stil(d, markers, pi_order, po_order, patterns, case['names'], loc=case.get('loc', False), callnames=case.get('callnames', 0))
+    text = render_stil(d, markers, pi_order, po_order, patterns, case['names'], loc=case.get('loc', False), callnames=case.get('callnames', 0), layout=case.get('layout', 'plain'))
     key = f'C18/{common.h64(case["design"]):08x}/m{"".join("".join(str(int(x)) for x in m) + "_" for m in markers)}/{common.h64(text):016x}'
     case = dict(case, text=text)
     try:
@@ -304,6 +315,18 @@ def run_design(res, d, tier, seed):
                 stil_case(res, case(markers, d.pis, d.pos, [p], names='hier'))
         # two patterns
         stil_case(res, case(markers, d.pis[::-1], d.pos[::-1], [base_pattern(0), base_pattern(1)]))
+        # textual layouts of the same three-pattern set (plain and launch-on-capture)
+        for layout in LAYOUTS[1:]:
+            pats = [base_pattern(0), base_pattern(1), base_pattern(2)]
+            stil_case(res, dict(case(markers, d.pis, d.pos, pats), layout=layout))
+            lp = []
+            for bits, q in enumerate(pats):
+                q = dict(q)
+                q['launch_pi'] = ''.join('P' if n == 'clk' else ('0' if n == 'se' else '01'[(j + bits) % 2]) for j, n in enumerate(d.pis))
+                q['capture_pi'] = ''.join('P' if n == 'clk' else ('0' if n == 'se' else '01'[(j + bits + 1) % 2]) for j, n in enumerate(d.pis))
+                lp.append(q)
+            stil_case(res, dict(case(markers, d.pis, d.pos, lp, loc=True), layout=layout))
+            res.count('layout_' + layout)
         # pattern sets of three: a pattern with a don't-care at one cell before / between fully specified ones; what one pattern
         # holds must not influence the values of the others (every position of N/X, with and without launch-on-capture)
         for ci, ch in enumerate(d.chains):
